@@ -10,11 +10,14 @@
 package c11
 
 import (
+	"encoding/json"
 	"fmt"
 	"math/rand"
+	"sort"
 	"strings"
 
 	"github.com/EliCDavis/polyform/nodes"
+	"github.com/EliCDavis/vector/vector3"
 	"polyverif/internal/run"
 )
 
@@ -23,36 +26,43 @@ const idleRereads = 10
 func Spec() *run.Spec {
 	return &run.Spec{
 		ID: "C11", Level: "exploration",
-		Rule: "case = one random DAG (shape chain/diamond/fan-in/shared/random, 3-25 harness-defined nodes.Struct nodes: unary, binary, 3-input, array and mixed inputs, string- and int-valued, order-sensitive, plus two kinds whose processor returns (fallback value, error) for some inputs and targeted fail -> read -> recover -> read sequences over them; 1-6 sources of kind parameter.Value[T] / nodes.ValueNode[T]) driven through 20-200 operations " +
-			"(parameter update, set/replace/clear a named input, array add/remove, read of an arbitrary node); every read is followed by 10 idle re-reads. After every operation: Version() delta == executions recorded by the processors (0 or 1) for every node, " +
-			"no execution outside a read, an executed node must have a change (parameter update in its transitive inputs or SetInput on the way, its own included) since its previous execution, the value read equals a from-scratch evaluation of the mirrored graph, State() agrees with the mirror's staleness. " +
+		Rule: "case = one random DAG (shape chain/diamond/fan-in/shared/random, 3-25 harness-defined nodes.Struct nodes: unary, binary, 3-input, array and mixed inputs, string- and int-valued, order-sensitive, plus two kinds whose processor returns (fallback value, error) for some inputs and targeted fail -> read -> recover -> read sequences over them; 1-6 string/int sources of kind parameter.Value[T] / nodes.ValueNode[T]; in 3 of 5 histories also 1-2 composite-valued sources, parameter.Vector3Array and parameter.Value[Rec] (harness struct: int, string, []int, nested struct, map), each read through an adapter node at the bottom of the graph) driven through 20-200 operations " +
+			"(parameter update; for parameter.Value sources through ApplyMessage, for the struct source also messages that leave fields out or are null; a quarter of the messages to parameter.Value sources are messages the source must reject: valid JSON whose beginning decodes before a wrongly typed element / field follows, a value of the wrong shape, or a cut-off message; set/replace/clear a named input, array add/remove, read of an arbitrary node); every read is followed by 10 idle re-reads. After every operation: Version() delta == executions recorded by the processors (0 or 1) for every node, " +
+			"no execution outside a read, an executed node must have a change (parameter update in its transitive inputs or SetInput on the way, its own included) since its previous execution, the value read equals a from-scratch evaluation of the mirrored graph, State() agrees with the mirror's staleness. A rejected message changes nothing in the mirror: after it ApplyMessage must have returned an error, Version() of the source is unchanged, Value() (directly and through the output) and the decoded ToMessage() equal the mirrored value (also checked after every accepted message), nothing above may execute; targeted sequence: source holds an applied value -> read above -> 1-2 rejected messages -> read -> the consumer's input is re-installed (it executes again) -> read. " +
 			"Phase lazy-inputs: the same with three more processor kinds that read only some of their wired inputs (Sel: condition picks one of two branches; First: first array entry only; Until: array entries up to the first odd value), plus targeted sequences (read while a branch is unread, change something below the unread branch, let another consumer process it, re-wire it, flip the condition, read: the value must come from the new branch); an execution is only flagged when no parameter in the node's wired transitive inputs and no wiring changed, State() must be Stale when an input the processors actually read changed. " +
 			"Non-trivial: the history re-reads a node whose cone contains a node with >= 2 dependencies at different versions (the state in which a permuted dependency order shows). Distinctness: shape / node-count bucket / source count / longest array bucket / history length bucket.",
 		Assumptions: []string{
 			"processors are pure functions of their inputs (no side effects besides the harness counter); two kinds (ChkI: negative input, ChkS: a third of all strings) return (fallback value, error): Value() must hand out that fallback (what nodes.Struct does with the result of Process()), an execution that ends in an error counts as one execution and +1 version like any other (behaviour of the unchanged tree), and State() of an up-to-date failed node may be Processed (unchanged tree) or Error",
 			"single goroutine: reads and edits are sequential (concurrency is C13)",
+			"a message counts as rejected when ApplyMessage returns an error; every generated rejected message is ill-typed or cut off for the type of the source (a case in which such a message is accepted is inconclusive, the mirror does not apply)",
 			"a SetInput call counts as a wiring change even when it re-installs the same source, and an update call as a parameter change even when the value is the same (so a conservative implementation is not flagged); State() is not constrained in those two situations",
 			"graph size is bounded so that the number of dependency paths below any node stays <= 400 (polyform's Outdated() walks every path)",
 			"phase lazy-inputs: a node may re-execute when a parameter below a wired-but-unread input changed (the property allows it); State() == Processed is not demanded there, State() == Stale only for changes in inputs that were read",
 		},
 		MinNontrivial: map[string]int{"quick": 100, "thorough": 300},
 		MinObserved: map[string]int64{
-			"idle_rereads":                             2000,
-			"reads_mixed_dep_versions":                 300,
-			"executions":                               1000,
-			"reads_array_ge10_in_cone":                 50,
-			"state_checks":                             5000,
-			"ops_array_remove":                         50,
-			"ops_set_named_replace":                    50,
-			"ops_update_parameter.Value":               50,
-			"ops_update_nodes.ValueNode":               50,
-			"lazy_scenario_condition_flipped":          100,
-			"fail_scenario_recovered":                  100,
-			"fail_scenario_made_to_fail":               100,
-			"executions_ending_in_error":               500,
-			"reads_over_a_failed_node":                 500,
-			"lazy_scenario_branch_processed_elsewhere": 30,
-			"lazy_scenario_unread_input_rewired":       30,
+			"idle_rereads":                                           2000,
+			"reads_mixed_dep_versions":                               300,
+			"executions":                                             1000,
+			"reads_array_ge10_in_cone":                               50,
+			"state_checks":                                           5000,
+			"ops_array_remove":                                       50,
+			"ops_set_named_replace":                                  50,
+			"ops_update_parameter.Value":                             50,
+			"ops_update_nodes.ValueNode":                             50,
+			"lazy_scenario_condition_flipped":                        100,
+			"fail_scenario_recovered":                                100,
+			"fail_scenario_made_to_fail":                             100,
+			"executions_ending_in_error":                             500,
+			"rejected_messages_[]vector3.Float64":                    500,
+			"rejected_messages_c11.Rec":                              500,
+			"rejected_messages_to_a_source_holding_an_applied_value": 1000,
+			"source_reader_checks":                                   5000,
+			"reject_scenario_consumer_reexecuted_and_read":           500,
+			"ops_update_struct_with_fields_left_out":                 200,
+			"reads_over_a_failed_node":                               500,
+			"lazy_scenario_branch_processed_elsewhere":               30,
+			"lazy_scenario_unread_input_rewired":                     30,
 		},
 		Phases: []run.Phase{
 			{Name: "histories", Cases: func(t string) int {
@@ -125,6 +135,18 @@ func (h *hist) src() srcFns {
 			}
 			return h.ln[r.idx].outI(alt)
 		},
+		v: func(r *ref) nodes.NodeOutput[[]vector3.Float64] {
+			if r == nil {
+				return nil
+			}
+			return h.lp[r.idx].outV(h.r.Intn(2) == 0)
+		},
+		c: func(r *ref) nodes.NodeOutput[Rec] {
+			if r == nil {
+				return nil
+			}
+			return h.lp[r.idx].outR(h.r.Intn(2) == 0)
+		},
 	}
 }
 
@@ -133,10 +155,15 @@ func (h *hist) output(r *ref) nodes.NodeOutputReference {
 		return nil
 	}
 	s := h.src()
-	if h.m.outType(*r) == tS {
+	switch h.m.outType(*r) {
+	case tS:
 		return s.s(r)
+	case tI:
+		return s.i(r)
+	case tV:
+		return s.v(r)
 	}
-	return s.i(r)
+	return s.c(r)
 }
 
 func history(c *run.Ctx, lazy bool) run.Result {
@@ -154,7 +181,11 @@ func history(c *run.Ctx, lazy bool) run.Result {
 	if r.Intn(3) == 0 {
 		nops = 20 + r.Intn(40)
 	}
-	h.m = genGraph(r, shape, nn, np, lazy)
+	nc := 0 // composite-valued sources (slice- / struct-typed parameter.Value)
+	if r.Intn(5) < 3 {
+		nc = 1 + r.Intn(2)
+	}
+	h.m = genGraph(r, shape, nn, np, nc, lazy)
 	m := h.m
 	h.init = m.describe()
 	c.Note(fmt.Sprintf("history shape=%s nodes=%d params=%d ops=%d lazy=%v", shape, len(m.nodes), np, nops, lazy))
@@ -162,7 +193,7 @@ func history(c *run.Ctx, lazy bool) run.Result {
 	// ---- build the real graph ------------------------------------------------
 	if p := run.Try(func() {
 		for k := range m.params {
-			pv := r.Intn(2) == 0
+			pv := r.Intn(2) == 0 || m.params[k].t == tV || m.params[k].t == tR
 			h.lp = append(h.lp, buildParam(&m.params[k], pv, fmt.Sprintf("p%d", k)))
 			if pv {
 				res.SetAdd("source_kinds", "parameter.Value["+m.params[k].t.String()+"]")
@@ -263,6 +294,9 @@ func (h *hist) randomOp() {
 	if h.lazy && r.Intn(10) == 0 && h.lazyScenario() {
 		return
 	}
+	if r.Intn(14) == 0 && h.rejectScenario() {
+		return
+	}
 	if r.Intn(14) == 0 && h.failScenario() {
 		return
 	}
@@ -271,6 +305,10 @@ func (h *hist) randomOp() {
 		switch {
 		case x < 24: // parameter update
 			k := r.Intn(len(m.params))
+			if h.lp[k].apply != nil && r.Intn(4) == 0 {
+				h.rejectParam(k)
+				return
+			}
 			h.updateParam(k, r.Intn(20) == 0)
 			return
 		case x < 38: // set / replace a named input
@@ -350,7 +388,70 @@ func (h *hist) updateParamOpts(k int, same bool, parity int, sign int) {
 	p.changedSoft = m.clock
 	h.uniq++
 	var desc string
-	if p.t == tS {
+	if p.t == tV || p.t == tR {
+		var msg string
+		if p.t == tV {
+			nv := p.v
+			msg = vecsJSON(nv)
+			if !same {
+				nv = randVecs(h.r, h.r.Intn(7))
+				msg = vecsJSON(nv)
+				if h.r.Intn(12) == 0 {
+					nv, msg = nil, "null"
+				}
+				if !vecsEq(nv, p.v) {
+					p.changedHard = m.clock
+				}
+			}
+			p.v = nv
+		} else {
+			nv := p.rc
+			msg = recJSON(nv, [5]bool{true, true, true, true, true})
+			if !same {
+				nv = randRec(h.r)
+				incl := [5]bool{true, true, true, true, true}
+				switch h.r.Intn(12) {
+				case 0, 1, 2, 3: // a message that leaves fields out: they are zero afterwards
+					for f := range incl {
+						incl[f] = h.r.Intn(2) == 0
+					}
+					if !incl[0] {
+						nv.A = 0
+					}
+					if !incl[1] {
+						nv.B = ""
+					}
+					if !incl[2] {
+						nv.C = nil
+					}
+					if !incl[3] {
+						nv.D = RecD{}
+					}
+					if !incl[4] {
+						nv.M = nil
+					}
+					msg = recJSON(nv, incl)
+					h.res.Count("ops_update_struct_with_fields_left_out", 1)
+				case 4:
+					nv, msg = Rec{}, "null"
+				default:
+					msg = recJSON(nv, incl)
+				}
+				if !recEq(nv, p.rc) {
+					p.changedHard = m.clock
+				}
+			}
+			p.rc = nv
+		}
+		p.applied = true
+		desc = fmt.Sprintf("U p%d=%s", k, clip(msg, 160))
+		h.step(desc, -1, false, "update", func() {
+			if _, err := lp.apply([]byte(msg)); err != nil {
+				panic(err)
+			}
+		})
+		h.res.Count("ops_update_"+p.t.String(), 1)
+	} else if p.t == tS {
 		v := p.s
 		if !same {
 			v = fmt.Sprintf("v%d", h.uniq)
@@ -381,6 +482,10 @@ func (h *hist) updateParamOpts(k int, same bool, parity int, sign int) {
 		desc = fmt.Sprintf("U p%d=%d", k, v)
 		h.step(desc, -1, false, "update", func() { lp.setI(v) })
 	}
+	p.applied = true
+	if !h.dead {
+		h.checkParam(k, false)
+	}
 	if lp.pv {
 		h.res.Count("ops_update_parameter.Value", 1)
 	} else {
@@ -389,6 +494,233 @@ func (h *hist) updateParamOpts(k int, same bool, parity int, sign int) {
 	if same {
 		h.res.Count("ops_update_same_value", 1)
 	}
+}
+
+// ---- messages -------------------------------------------------------------------
+
+func vecJSON(v vec3) string {
+	return `{"x":` + ff(v[0]) + `,"y":` + ff(v[1]) + `,"z":` + ff(v[2]) + `}`
+}
+
+func vecsJSON(vs []vec3) string {
+	parts := make([]string, 0, len(vs))
+	for _, v := range vs {
+		parts = append(parts, vecJSON(v))
+	}
+	return "[" + strings.Join(parts, ",") + "]"
+}
+
+func jstr(s string) string {
+	b, _ := json.Marshal(s)
+	return string(b)
+}
+
+func intsJSON(c []int, extra ...string) string {
+	parts := make([]string, 0, len(c)+len(extra))
+	for _, x := range c {
+		parts = append(parts, fmt.Sprint(x))
+	}
+	return "[" + strings.Join(append(parts, extra...), ",") + "]"
+}
+
+func mapJSON(m map[string]int, extra ...string) string {
+	keys := make([]string, 0, len(m))
+	for k := range m {
+		keys = append(keys, k)
+	}
+	sort.Strings(keys)
+	parts := make([]string, 0, len(keys)+len(extra))
+	for _, k := range keys {
+		parts = append(parts, jstr(k)+":"+fmt.Sprint(m[k]))
+	}
+	return "{" + strings.Join(append(parts, extra...), ",") + "}"
+}
+
+// recJSON writes the included fields of rc in the order a, b, c, d, m.
+func recJSON(rc Rec, incl [5]bool) string {
+	var parts []string
+	if incl[0] {
+		parts = append(parts, `"a":`+fmt.Sprint(rc.A))
+	}
+	if incl[1] {
+		parts = append(parts, `"b":`+jstr(rc.B))
+	}
+	if incl[2] {
+		parts = append(parts, `"c":`+intsJSON(rc.C))
+	}
+	if incl[3] {
+		parts = append(parts, `"d":{"x":`+ff(rc.D.X)+`,"y":`+ff(rc.D.Y)+`}`)
+	}
+	if incl[4] {
+		parts = append(parts, `"m":`+mapJSON(rc.M))
+	}
+	return "{" + strings.Join(parts, ",") + "}"
+}
+
+// rejectedMessage builds a message that a JSON decoder of the source's type must
+// reject. Most variants are valid JSON whose beginning decodes (new element / field
+// values that differ from what the parameter holds) before a wrongly typed element
+// or field follows; the others are of the wrong shape altogether or cut off.
+func (h *hist) rejectedMessage(k int) (msg, variant string) {
+	r := h.r
+	switch h.m.params[k].t {
+	case tV:
+		w := randVecs(r, 2+r.Intn(4))
+		switch r.Intn(8) {
+		case 0, 1:
+			return "[" + vecJSON(w[0]) + "," + vecJSON(w[1]) + `,"oops"]`, "good elements, then a string element"
+		case 2, 3:
+			return "[" + vecJSON(w[0]) + `,{"x":"s","y":1,"z":2},` + vecJSON(w[1]) + "]", "good element, then an element with a wrongly typed field"
+		case 4, 5:
+			return strings.TrimSuffix(vecsJSON(w), "]") + ",7]", "good elements, then a number element"
+		case 6:
+			return vecJSON(w[0]), "an object instead of an array"
+		}
+		return strings.TrimSuffix(vecsJSON(w), "}]"), "cut off"
+	case tR:
+		n := randRec(r)
+		all := [5]bool{true, true, true, true, true}
+		switch r.Intn(10) {
+		case 0, 1:
+			full := recJSON(n, all)
+			return strings.Replace(full, `"c":`+intsJSON(n.C), `"c":`+intsJSON(n.C, `"x"`), 1), "all fields good but the last element of the slice field"
+		case 2:
+			return `{"a":` + fmt.Sprint(n.A) + `,"b":17}`, "good field, then a wrongly typed field"
+		case 3:
+			return `{"m":` + mapJSON(n.M, `"k9":"s"`) + `,"c":` + intsJSON(n.C) + `,"a":"str"}`, "good map entries and slice, then wrongly typed entries"
+		case 4:
+			return `{"d":{"x":` + ff(n.D.X) + `,"y":"no"},"b":` + jstr(n.B) + `}`, "nested struct with a wrongly typed field, then a good field"
+		case 5, 6:
+			return `{"b":` + jstr(n.B) + `,"c":` + intsJSON(n.C) + `,"m":` + mapJSON(n.M) + `,"a":1.5}`, "good fields, then a fraction for an int field"
+		case 7:
+			return `{"c":` + intsJSON(n.C, "2.5", "3") + `,"d":{"x":1.25,"y":2.5}}`, "slice with a wrongly typed element in the middle"
+		case 8:
+			return "[1,2]", "an array instead of an object"
+		}
+		return strings.TrimSuffix(recJSON(n, all), "}"), "cut off"
+	case tS:
+		return []string{"12", `{"a":1}`, `["x"]`, `"unterminated`}[r.Intn(4)], "wrong type for a string"
+	}
+	return []string{`"abc"`, "1.5", "[1]", "{"}[r.Intn(4)], "wrong type for an int"
+}
+
+// rejectParam sends a message that the source must reject. The mirror does not
+// change: not the value, not the version, not the staleness of anything.
+func (h *hist) rejectParam(k int) {
+	lp := h.lp[k]
+	if lp.apply == nil {
+		return
+	}
+	msg, variant := h.rejectedMessage(k)
+	verB := lp.node.Version()
+	var err error
+	if !h.step(fmt.Sprintf("X p%d<-%s", k, clip(msg, 160)), -1, false, "rejected update", func() { _, err = lp.apply([]byte(msg)) }) {
+		return
+	}
+	if err == nil {
+		h.res.Inconclusive = fmt.Sprintf("ApplyMessage of a %s source accepted the message %s (%s); the mirror assumes it is rejected", h.m.params[k].t, clip(msg, 200), variant)
+		h.dead = true
+		return
+	}
+	h.res.Count("rejected_messages", 1)
+	h.res.Count("rejected_messages_"+h.m.params[k].t.String(), 1)
+	h.res.SetAdd("rejected_message_variants", h.m.params[k].t.String()+": "+variant)
+	if h.m.params[k].applied {
+		h.res.Count("rejected_messages_to_a_source_holding_an_applied_value", 1)
+	}
+	if v := lp.node.Version(); v != verB {
+		h.violate("rejected-message-changed-version", "parameter.Value.ApplyMessage", "rejected message: "+variant,
+			fmt.Sprintf("source p%d (parameter.Value[%s]): ApplyMessage(%s) returned the error %q but Version() went %d -> %d", k, h.m.params[k].t, clip(msg, 300), err, verB, v))
+	}
+	h.checkParam(k, true)
+}
+
+// checkParam compares every reader of a parameter.Value source with the mirror.
+func (h *hist) checkParam(k int, afterRejected bool) {
+	lp := h.lp[k]
+	if lp.diff == nil {
+		return
+	}
+	var d string
+	if p := run.Try(func() { d = lp.diff(&h.m.params[k], h.r.Intn(2) == 0) }); p != nil {
+		h.violate("panic", p.Site, "reading a source", fmt.Sprintf("reading source p%d panicked: %s\n%s", k, p.Value, p.Stack))
+		h.dead = true
+		return
+	}
+	h.res.Count("source_reader_checks", 1)
+	if d == "" {
+		return
+	}
+	t := h.m.params[k].t.String()
+	if afterRejected {
+		h.violate("rejected-message-changed-parameter", "parameter.Value.ApplyMessage ("+t+")", "rejected message",
+			fmt.Sprintf("after %q (ApplyMessage returned an error, Version() unchanged): source p%d (parameter.Value[%s]) %s", lastOp(h.ops), k, t, d))
+	} else {
+		h.violate("parameter-value-wrong-after-update", "parameter.Value.ApplyMessage ("+t+")", "accepted message",
+			fmt.Sprintf("after %q: source p%d (parameter.Value[%s]) %s", lastOp(h.ops), k, t, d))
+	}
+}
+
+// rejectScenario: a source that holds an applied value and is read through a
+// consumer receives rejected messages; then everything above is read again
+// (nothing may execute, the value is the old one), then the consumer is made to
+// execute again for another reason (its input is re-installed) and is read: it
+// must still compute from the value the source held before the rejected messages.
+func (h *hist) rejectScenario() bool {
+	r, m := h.r, h.m
+	type cand struct{ k, c, j int }
+	var comp, scal []cand
+	for c := range m.nodes {
+		for j, rf := range m.nodes[c].named {
+			if rf == nil || !rf.param || h.lp[rf.idx].apply == nil {
+				continue
+			}
+			if t := m.params[rf.idx].t; t == tV || t == tR {
+				comp = append(comp, cand{rf.idx, c, j})
+			} else {
+				scal = append(scal, cand{rf.idx, c, j})
+			}
+		}
+	}
+	cands := comp
+	if len(cands) == 0 || (len(scal) > 0 && r.Intn(6) == 0) {
+		cands = scal
+	}
+	if len(cands) == 0 {
+		return false
+	}
+	x := cands[r.Intn(len(cands))]
+	top := x.c
+	var above []int
+	for j := x.c + 1; j < len(m.nodes); j++ {
+		if m.closure(j)[x.c] {
+			above = append(above, j)
+		}
+	}
+	if len(above) > 0 && r.Intn(3) != 0 {
+		top = above[r.Intn(len(above))]
+	}
+	h.res.Count("reject_scenarios", 1)
+	if !m.params[x.k].applied || r.Intn(3) == 0 {
+		h.updateParam(x.k, false)
+	}
+	if !h.dead {
+		h.read(top)
+	}
+	for n := 1 + r.Intn(2); n > 0 && !h.dead; n-- {
+		h.rejectParam(x.k)
+	}
+	if !h.dead {
+		h.read(top)
+	}
+	if !h.dead && m.nodes[x.c].named[x.j] != nil {
+		same := *m.nodes[x.c].named[x.j]
+		if h.setNamed(x.c, x.j, &same) && !h.dead {
+			h.read(top)
+			h.res.Count("reject_scenario_consumer_reexecuted_and_read", 1)
+		}
+	}
+	return true
 }
 
 // paramsBelow lists the sources in the cone of ref rf.
@@ -966,6 +1298,8 @@ func opClass(op string) string {
 	switch op[0] {
 	case 'U':
 		return "parameter update"
+	case 'X':
+		return "rejected parameter update"
 	case 'W', 'A', 'R':
 		return "re-wiring"
 	case 'V':
